@@ -12,7 +12,7 @@ int main(int argc, char** argv)
 {
   FEAT::Runtime::ScopeGuard guard(argc, argv);
   std::vector<Target> tg;
-  tg.push_back({"csr", DISPATCH(1, 20, -1), 512, 40});
-  tg.push_back({"csr_ilu", DISPATCH(1, 20, c08::K_ILU), 512, 40});
+  tg.push_back({"csr", DISPATCH(1, 20, -1), 192, 16});
+  tg.push_back({"csr_ilu", DISPATCH(1, 20, c08::K_ILU), 192, 16});
   return main_impl(argc, argv, tg);
 }
